@@ -47,8 +47,13 @@ RandCfg(u) == [parent |-> RandParent(u), jointed |-> [b \in Bodies |-> RandomEle
                contype |-> [g \in Geoms |-> RandomElement(Masks)], conaffinity |-> [g \in Geoms |-> RandomElement(Masks)],
                exclude |-> Rand2({p \in PairsOf : 0 \notin p}), pairs |-> Rand2(PairsOf), filterparent |-> RandomElement({TRUE, TRUE, FALSE})]
 
-Init == c = RandCfg(0) /\ k = 1
-Next == k < NCfg /\ c' = RandCfg(k) /\ k' = k + 1
+\* Mode "enum": every forest x every jointed/welded assignment x filterparent, with masks that let every pair through and no excludes /
+\* explicit pairs - the weld-root and weld-parent rules exhaustively for NB bodies
+Forests == {p \in [Bodies -> 0..NB] : ValidForest(p)}
+EnumCfgs == {[parent |-> p, jointed |-> j, contype |-> [g \in Geoms |-> 1], conaffinity |-> [g \in Geoms |-> 1], exclude |-> {}, pairs |-> {}, filterparent |-> f] :
+               p \in Forests, j \in [Bodies -> BOOLEAN], f \in BOOLEAN}
+Init == k = 1 /\ (IF Mode = "enum" THEN c \in EnumCfgs ELSE c = RandCfg(0))
+Next == Mode = "sim" /\ k < NCfg /\ c' = RandCfg(k) /\ k' = k + 1
 Spec == Init /\ [][Next]_vars
 ------------------------------------------------------------------------
 \* sanity of the rule itself
